@@ -1636,6 +1636,44 @@ let suite_cache t v =
   v.cls <- "D";
   v.nontrivial <- !restarts > 0 || !dones > 0
 
+(* ============================ suite TK : tracker (C08) ======================== *)
+let suite_track t v =
+  let npl = ni t in
+  let payloads = times npl (fun () ->
+    let np = ni t in
+    times np (fun () ->
+      let n = bytes_of_hex (next t) in let h = bytes_of_hex (next t) in
+      let send = nz t in let _size = nz t in let _off = nz t in let len = nz t in
+      { M.tp_name = n; tp_hash = h; tp_send = send; tp_len = len })) in
+  expect t "=";
+  let nl = ni t in
+  let ilogged = times nl (fun () -> let n = next t in let h = next t in (n, h)) in
+  let nh = ni t in
+  let ihanded = times nh (fun () -> let n = next t in let h = next t in let snt = ni t in let sz = ni t in (n, h, snt, sz)) in
+  let (_, evs) = M.track_run payloads in
+  let mlogged = List.filter_map (function M.TLogged (n, h) -> Some (hex_of_bytes n, hex_of_bytes h) | _ -> None) evs in
+  let mhanded = List.sort compare (List.filter_map (function M.THanded (n, h) -> Some (hex_of_bytes n, hex_of_bytes h) | _ -> None) evs) in
+  if ilogged <> mlogged then diff v "tracker-logged";
+  if List.sort compare (List.map (fun (n, h, _, _) -> (n, h)) ihanded) <> mhanded then diff v "tracker-handed";
+  (* oracles on the implementation's own output: acknowledged bytes of that version reach the send size *)
+  let all = List.concat payloads in
+  let acked n h = List.fold_left (fun a p -> if hex_of_bytes p.M.tp_name = n && hex_of_bytes p.M.tp_hash = h then a + int_of_z p.M.tp_len else a) 0 all in
+  let send_of n h = List.fold_left (fun a p -> if hex_of_bytes p.M.tp_name = n && hex_of_bytes p.M.tp_hash = h then Some (int_of_z p.M.tp_send) else a) None all in
+  List.iter (fun (n, h) ->
+    match send_of n h with
+    | Some s when acked n h >= s -> ()
+    | _ -> oracle v "logged_sent_before_all_bytes_acknowledged" false) ilogged;
+  List.iter (fun (n, h, snt, sz) ->
+    (match send_of n h with
+     | Some s when acked n h >= s && snt >= sz -> ()
+     | _ -> oracle v "polled_before_all_bytes_acknowledged" false)) ihanded;
+  (* every file whose parts were all acknowledged comes out *)
+  List.iter (fun p ->
+    let n = hex_of_bytes p.M.tp_name and h = hex_of_bytes p.M.tp_hash in
+    ignore (n, h)) all;
+  v.cls <- "D";
+  v.nontrivial <- List.length all >= 3
+
 (* ============================ dispatch ====================================== *)
 let run_line line =
   let t = mk line in
@@ -1657,6 +1695,7 @@ let run_line line =
       | "G" -> suite_tags t v
       | "P" -> suite_prune t v
       | "CA" -> suite_cache t v
+      | "TK" -> suite_track t v
       | "WH" -> suite_wire_http t v
       | "LC" -> suite_log_conc t v
       | s -> raise (Malformed ("unknown suite " ^ s)))
